@@ -98,9 +98,15 @@ def inHalfOpen (s : V3 K) : Bool :=
   decide (0 ≤ s.x) && decide (s.x < 1) && decide (0 ≤ s.y) && decide (s.y < 1) &&
   decide (0 ≤ s.z) && decide (s.z < 1)
 
+/-- `np.rint`: the nearest integer `⌊x + 1/2⌋`, an exact half going to the even neighbour. -/
+def rintK (fl : K → Int) (x : K) : Int :=
+  let h := x + 1 / ((2 : Int) : K)
+  let n := fl h
+  if decide ((n : K) ≤ h) && decide (h ≤ (n : K)) && decide (n % 2 ≠ 0) then n - 1 else n
+
 /-- `rotate` up to (not including) `normalize`: the new box and the atoms kept.
-    The bounding supercell is translated by the whole lattice vector `-rint(origin·V⁻¹)·V` (the nearest one:
-    `⌊x + 1/2⌋`, `np.rint` away from exact halves) so that it
+    The bounding supercell is translated by the whole lattice vector `-rint(origin·V⁻¹)·V` (the nearest one,
+    `rintK` = `np.rint`) so that it
     surrounds the Cartesian origin; the new cell `U·vects` is cut out at the Cartesian origin
     (`box_set(vects=…)` resets the origin to zero).  `fl` is the floor function (`Rat.floor` when run).
     `none` = the refusal "vectors are parallel or planar" (`det U = 0`). -/
@@ -109,8 +115,8 @@ def rotateRaw (fl : K → Int) (b : Box K) (U : M3 Int) (atoms : List (Atom K)) 
   if M3.det U = 0 then none else
   let (sa, sb, sc) := rotateSizes U
   let orel := b.cartToRel ⟨0, 0, 0⟩          -- = -(origin · V⁻¹)
-  let nsh : V3 K := ⟨((fl (0 - orel.x + 1 / ((2 : Int) : K)) : Int) : K), ((fl (0 - orel.y + 1 / ((2 : Int) : K)) : Int) : K),
-                     ((fl (0 - orel.z + 1 / ((2 : Int) : K)) : Int) : K)⟩
+  let nsh : V3 K := ⟨((rintK fl (0 - orel.x) : Int) : K), ((rintK fl (0 - orel.y) : Int) : K),
+                     ((rintK fl (0 - orel.z) : Int) : K)⟩
   let shift := M3.vecMul nsh b.vects
   let sup := (supersizeAtoms b sa sb sc atoms).map fun a => { a with pos := a.pos - shift }
   let nb : Box K := ⟨newVects U b.vects, ⟨0, 0, 0⟩⟩
